@@ -137,6 +137,9 @@ type parseInterp struct {
 	reported map[string]bool
 	nLoops   map[token.Pos]bool
 	nSkips   int
+	// parameters of plain functions that are bound to the current token while such a function is interpreted
+	// (`startsTrailingCommodity(p.current)`: tok.Type is the current kind)
+	tokParams map[types.Object]bool
 }
 
 type pFrame struct {
@@ -470,6 +473,9 @@ func (pi *parseInterp) isCurrentType(e ast.Expr) bool {
 	// the kind field of the token: by type
 	if t := pi.info.TypeOf(se); t == nil || !strings.HasSuffix(types.TypeString(t, nil), "parser.TokenType") {
 		return false
+	}
+	if id, isId := ast.Unparen(se.X).(*ast.Ident); isId && pi.tokParams[pi.info.Uses[id]] {
+		return true
 	}
 	in, ok := ast.Unparen(se.X).(*ast.SelectorExpr)
 	return ok && in.Sel.Name == pi.curField
@@ -833,6 +839,46 @@ func (pi *parseInterp) cond(e ast.Expr, in []*pState, fr *pFrame) (t, f []*pStat
 		if m, ok := pi.methodCall(call); ok {
 			if t, f, ok := pi.callBool(m, call, in, fr); ok {
 				return t, f
+			}
+		}
+		// a plain predicate of the package that is handed the current token (`startsTrailingCommodity(p.current)`):
+		// interpreted like a boolean method, with the parameter standing for the current token
+		if id, isId := ast.Unparen(call.Fun).(*ast.Ident); isId {
+			if fo, isF := pi.info.Uses[id].(*types.Func); isF {
+				if fd := pi.c.P.declOf[fo]; fd != nil && fd.Recv == nil && fd.Body != nil && pi.c.P.pkgOf[fd] != nil && strings.HasSuffix(pi.c.P.pkgOf[fd].PkgPath, "/parser") && !pi.mutates(fd.Body, 0) {
+					var bound []types.Object
+					i := 0
+					for _, fl := range fd.Type.Params.List {
+						for _, nm := range fl.Names {
+							if i < len(call.Args) {
+								if se, isSel := ast.Unparen(call.Args[i]).(*ast.SelectorExpr); isSel && se.Sel.Name == pi.curField {
+									if o := pi.info.Defs[nm]; o != nil {
+										bound = append(bound, o)
+									}
+								}
+							}
+							i++
+						}
+					}
+					if len(bound) > 0 {
+						name := "func:" + fo.Name()
+						if pi.tokParams == nil {
+							pi.tokParams = map[types.Object]bool{}
+						}
+						for _, o := range bound {
+							pi.tokParams[o] = true
+						}
+						pi.methods[name] = fd
+						t, f, ok := pi.callBool(name, call, in, fr)
+						delete(pi.methods, name)
+						for _, o := range bound {
+							delete(pi.tokParams, o)
+						}
+						if ok {
+							return t, f
+						}
+					}
+				}
 			}
 		}
 		if m, ok := pi.methodCall(call); ok && !pi.mutates(pi.methods[m].Body, 0) {
